@@ -1,7 +1,7 @@
 ------------------------------- MODULE DocText -------------------------------
 (* Layer P for C15: doc text stays inside comments. The generated file is abstracted (by the       *)
 (* harness, symbol by symbol, no interpretation) to a stream over                                     *)
-(*   NL  LC (`//`)  BO (`/*`)  BC (`*/`)  TDQ (three double quotes)  TSQ (three single quotes)        *)
+(*   NL (LF or CR LF)  CR (a carriage return NOT followed by LF)  LC (`//`)  BO (`/*`)  BC (`*/`)  TDQ (three double quotes)  TSQ (three single quotes)        *)
 (*   DQ (`"`)  SQ (`'`)  BS (backslash)  HASH (`#`)  BT (back-tick)  DOC (a byte that came from a     *)
 (*   doc comment)  X (anything else)                                                                  *)
 (* and this module runs the comment/string lexer of the target language over it. Every DOC symbol     *)
@@ -10,6 +10,10 @@ EXTENDS Naturals, Sequences
 
 Nested(lang) == lang \in {"kotlin", "swift", "scala"}           \* block comments nest
 CFamily(lang) == lang \in {"typescript", "kotlin", "swift", "scala", "go"}
+
+\* a lone carriage return ends a line in every target language except Go (JavaScript LineTerminator, Kotlin / Scala / Swift
+\* line-break, Python universal newlines); Go's only newline is LF
+LineEnd(lang, s) == s = "NL" \/ (s = "CR" /\ lang # "go")
 
 \* state: [m |-> mode, d |-> block comment depth, esc |-> previous symbol was an escaping backslash]
 \* modes: code, line, block, dq, sq, bt, hash, tdq, tsq
@@ -25,7 +29,7 @@ StepC(lang, st, s) ==
                [] s = "SQ" /\ lang = "typescript" -> [st EXCEPT !.m = "sq"]
                [] s = "BT" /\ lang \in {"go", "typescript", "swift"} -> [st EXCEPT !.m = "bt"]
                [] OTHER -> st)
-      [] st.m = "line" -> IF s = "NL" THEN [st EXCEPT !.m = "code"] ELSE st
+      [] st.m = "line" -> IF LineEnd(lang, s) THEN [st EXCEPT !.m = "code"] ELSE st
       [] st.m = "block" ->
             (CASE s = "BC" -> IF st.d = 1 THEN [st EXCEPT !.m = "code", !.d = 0] ELSE [st EXCEPT !.d = st.d - 1]
                [] s = "BO" /\ Nested(lang) -> [st EXCEPT !.d = st.d + 1]
@@ -34,7 +38,7 @@ StepC(lang, st, s) ==
             (IF st.esc THEN [st EXCEPT !.esc = FALSE]
              ELSE CASE s = "BS" -> [st EXCEPT !.esc = TRUE]
                     [] (s = "DQ" /\ st.m = "dq") \/ (s = "SQ" /\ st.m = "sq") -> [st EXCEPT !.m = "code"]
-                    [] s = "NL" -> [st EXCEPT !.m = "error"]       \* unterminated string literal
+                    [] LineEnd(lang, s) -> [st EXCEPT !.m = "error"]       \* unterminated string literal
                     [] OTHER -> st)
       [] st.m = "bt" -> IF s = "BT" THEN [st EXCEPT !.m = "code"] ELSE st
       [] OTHER -> st
@@ -47,7 +51,7 @@ StepPy(st, s) ==
                [] s = "DQ" -> [st EXCEPT !.m = "dq"]
                [] s = "SQ" -> [st EXCEPT !.m = "sq"]
                [] OTHER -> st)
-      [] st.m = "hash" -> IF s = "NL" THEN [st EXCEPT !.m = "code"] ELSE st
+      [] st.m = "hash" -> IF s \in {"NL", "CR"} THEN [st EXCEPT !.m = "code"] ELSE st
       [] st.m \in {"tdq", "tsq"} ->
             (IF st.esc THEN [st EXCEPT !.esc = FALSE]
              ELSE CASE s = "BS" -> [st EXCEPT !.esc = TRUE]
@@ -57,7 +61,7 @@ StepPy(st, s) ==
             (IF st.esc THEN [st EXCEPT !.esc = FALSE]
              ELSE CASE s = "BS" -> [st EXCEPT !.esc = TRUE]
                     [] (s = "DQ" /\ st.m = "dq") \/ (s = "SQ" /\ st.m = "sq") -> [st EXCEPT !.m = "code"]
-                    [] s = "NL" -> [st EXCEPT !.m = "error"]
+                    [] s \in {"NL", "CR"} -> [st EXCEPT !.m = "error"]
                     [] OTHER -> st)
       [] OTHER -> st
 
